@@ -20,6 +20,7 @@ class ContractDB:
         self.module_globals = {}   # file -> {name: const}
         self.methods = {}          # (cls, name) -> callee spec | contract key
         self.replays = {}          # key -> callable
+        self.domains = {}          # key -> generator of bounded real inputs
         self.axioms = []
         self._nan = None
         self._card = {}
@@ -47,6 +48,8 @@ class ContractDB:
             self.spec_funcs[k] = c
         for k, c in getattr(m, 'REPLAY', {}).items():
             self.replays[k] = c
+        for k, c in getattr(m, 'DOMAIN', {}).items():
+            self.domains[k] = c
         self.exc_bases.update(getattr(m, 'EXC_BASES', {}))
         return m
 
